@@ -173,7 +173,11 @@ DRmspan(d, p) ==
   IF ~CanWrite(d.mode) THEN <<Cand(d, "err:AccessDenied")>>
   ELSE <<Cand(d, "ok")>> \o (IF Present(d, p) THEN <<Cand(DMark(d, p, <<0, 0, 0 - 1>>), "ok")>> ELSE <<>>)
 
-DFlush(d) == <<Cand([d EXCEPT !.c = St!CFlush(@, "dyn")], "ok")>>
+\* flush_bucket / flush_all_updates: nothing observable; without write access a refusal is as good as a no-op,
+\* what is not is rewriting index files (FX03f; the directory digest is judged by the monitor)
+DFlush(d) ==
+  IF CanWrite(d.mode) THEN <<Cand([d EXCEPT !.c = St!CFlush(@, "dyn")], "ok")>>
+  ELSE <<Cand(d, "ok"), Cand(d, "err:AccessDenied"), DevCand(d, "ok", {"FX03f"})>>
 
 \* close + open on the same directory (the shared tracker and residency container live on); flen = the
 \* archive's length now.  Entries that reach beyond it have lost bytes.
@@ -313,7 +317,9 @@ Place(k, e, f) == CASE e[f] = "trie" -> <<"t", k>> [] e[f] = "tk" -> <<"t", e.dk
 SetPath(h, pl, i) == [h EXCEPT !.paths[pl] = i]
 
 \* ---- the FD cache as the code keeps it: (key, answer) pairs, least recently used evicted at capacity ----
-Front(q, k, cap) == LET q2 == <<k>> \o SelectSeq(q, LAMBDA x : x # k) IN SubSeq(q2, 1, IF Len(q2) > cap THEN cap ELSE Len(q2))
+\* mru lists the cached keys, most recent first; cv / why are kept for the keys of the universe only (filler keys
+\* of a flood are never asked again: their answer is "false" and true)
+Front(q, k, cap) == LET q2 == <<k>> \o SelectSeq(q, LAMBDA x : x # k) IN IF Len(q2) > cap THEN SubSeq(q2, 1, cap) ELSE q2
 Cached(h, k) == \E i \in 1..Len(h.mru) : h.mru[i] = k
 CacheSet(h, k, v, y, cap) == [h EXCEPT !.mru = Front(@, k, cap), !.cv = R!RPut(@, k, v), !.why = R!RPut(@, k, y)]
 CacheDrop(h, k) == [h EXCEPT !.mru = SelectSeq(@, LAMBDA x : x # k)]
@@ -393,11 +399,12 @@ HEnv(h, e) ==
     [] e.op = "xremove" -> <<Cand(SetPath(h, <<"t", e.k>>, None), "ok")>>
     [] e.op = "xrmsrc"  -> <<Cand(SetPath(h, <<"s", e.src>>, None), "ok")>>
 
-\* n never-seen keys are queried: all absent, all cached
-RECURSIVE HFloodN(_, _, _)
-HFloodN(h, n, cap) ==
-  IF n = 0 THEN h ELSE HFloodN([CacheSet(h, "f" \o ToString(h.fill), "false", "obs", cap) EXCEPT !.fill = @ + 1], n - 1, cap)
-HFlood(h, e, cap) == <<Cand(IF h.sup THEN HFloodN(h, e.n, cap) ELSE h, "false")>>
+\* n never-seen keys are queried: all absent, all cached (the newest in front)
+HFlood(h, e, cap) ==
+  LET n  == e.n
+      fs == [i \in 1..n |-> "f" \o ToString(h.fill + n - i)]
+      q2 == fs \o h.mru
+  IN <<Cand(IF h.sup THEN [h EXCEPT !.mru = IF Len(q2) > cap THEN SubSeq(q2, 1, cap) ELSE q2, !.fill = @ + n] ELSE h, "false")>>
 
 HReopen(h, e) == <<Cand([h EXCEPT !.mode = e.mode, !.sup = (e.sup = "true"), !.mru = <<>>], "ok")>>
 HProbe(h, e)  == <<Cand([h EXCEPT !.sup = TRUE], "true")>>
@@ -432,9 +439,9 @@ HBounded(cap) == Len(w.mru) <= cap
 \* H2 without an environment: everything the cache holds is true
 \* H2 without an environment: everything the cache holds is true - refuted by TLC on the cache as the code keeps it
 \* (create_link / remove_file with a path that is not the key's own: FX03c; failed create_link: FX03d) ...
-HCoherentStrict == \A i \in 1..Len(w.mru) : w.cv[w.mru[i]] = Truth(w, w.mru[i])
+HCoherentStrict == \A i \in 1..Len(w.mru) : w.mru[i] \in DOMAIN w.cv => w.cv[w.mru[i]] = Truth(w, w.mru[i])
 \* ... and true of every entry that is not blamed on one of them
-HCoherent   == \A i \in 1..Len(w.mru) : w.why[w.mru[i]] = "obs" => w.cv[w.mru[i]] = Truth(w, w.mru[i])
+HCoherent   == \A i \in 1..Len(w.mru) : (w.mru[i] \in DOMAIN w.cv /\ w.why[w.mru[i]] = "obs") => w.cv[w.mru[i]] = Truth(w, w.mru[i])
 HSourcesSafe == w.paths[<<"s", "s1">>] \in {<<"s1">>, None} /\ w.paths[<<"s", "s2">>] \in {<<"s2">>, None}
 HFrozen     == (~CanWrite(w.mode) /\ w'.mode = w.mode) =>
                  \A p \in DOMAIN w.paths : p[1] \in {"t", "in", "out"} => (w'.paths[p] = w.paths[p] \/ w'.paths[p][1] = "x" \/ w.paths[p][1] = "x")
